@@ -25,6 +25,8 @@ func (c *Clause) label(i int) string {
 }
 
 type SpecFn struct {
+	Opaque bool
+	NonNeg bool
 	Pkg    string
 	Name   string
 	Params []string
@@ -69,6 +71,8 @@ type Contract struct {
 	Known       map[string]string // clause-name -> finding id (informational)
 	Line        int
 	Ghost       []string
+	Hints       []*Clause
+	Reveal      []string
 }
 
 type ContractSet struct {
@@ -83,14 +87,14 @@ var directiveRe = regexp.MustCompile(`^([a-z-]+)(\[[A-Za-z0-9_.:-]+\])?(\s+|$)`)
 var knownDirectives = map[string]bool{"func": true, "extern": true, "property": true, "requires": true, "ensures": true,
 	"modifies": true, "loop": true, "spec": true, "nooverflow": true, "nopanic": true, "inline": true, "assume": true, "pure": true,
 	"noreturn": true, "nilrecv": true, "lemma": true, "var": true, "assumes": true, "shows": true, "uses": true, "iface": true,
-	"bounded": true, "note": true, "ghost": true}
+	"bounded": true, "note": true, "ghost": true, "hint": true, "package": true, "opaque": true, "reveal": true}
 
 // loadContracts parses every zz_verif_contracts.go below root/src.
 func loadContracts(root string) (*ContractSet, error) {
 	cs := &ContractSet{byKey: map[string]*Contract{}, pkgSpecs: map[string]map[string]*SpecFn{}}
 	var files []string
 	filepath.Walk(filepath.Join(root, "src"), func(p string, info os.FileInfo, err error) error {
-		if err == nil && !info.IsDir() && info.Name() == "zz_verif_contracts.go" {
+		if err == nil && !info.IsDir() && strings.HasPrefix(info.Name(), "zz_verif_contracts") && strings.HasSuffix(info.Name(), ".go") {
 			files = append(files, p)
 		}
 		return nil
@@ -170,12 +174,21 @@ func (cs *ContractSet) parseFile(path, pkg string) error {
 			cs.lemmas = append(cs.lemmas, lem)
 			cur = nil
 			continue
-		case "spec":
+		case "spec", "opaque":
 			sf, err := parseSpecFn(d.text)
 			if err != nil {
 				return perr(d, err)
 			}
 			sf.Pkg = pkg
+			if d.kw == "opaque" {
+				// an uninterpreted function of scalar arguments; its definition is visible only
+				// to contracts that say "reveal <name>"; [nonneg] adds a proof obligation
+				// (generated where it is revealed) that the body is >= 0 for arguments >= 0
+				sf.Opaque = true
+				sf.NonNeg = d.name == "nonneg"
+				cs.pkgSpecs[pkg][sf.Name] = sf
+				continue
+			}
 			if cur != nil {
 				cur.Specs[sf.Name] = sf
 			} else if lem != nil {
@@ -185,6 +198,10 @@ func (cs *ContractSet) parseFile(path, pkg string) error {
 			}
 			continue
 		case "note":
+			continue
+		case "package":
+			// back to package level: following spec directives are package-wide
+			cur, lem = nil, nil
 			continue
 		}
 		if lem != nil {
@@ -277,6 +294,19 @@ func (cs *ContractSet) parseFile(path, pkg string) error {
 			cur.Bounded = d.text
 		case "ghost":
 			cur.Ghost = append(cur.Ghost, strings.Fields(d.text)...)
+		case "reveal":
+			cur.Reveal = append(cur.Reveal, strings.Fields(d.text)...)
+		case "hint":
+			// a theorem instance (sumext(...)) asserted at every return; only theorem
+			// builtins are accepted, so a hint cannot introduce an assumption
+			n, err := parseSpec(d.text)
+			if err != nil {
+				return perr(d, err)
+			}
+			if n.Op != "call" || n.Args[0].Op != "id" || n.Args[0].Name != "sumext" {
+				return perr(d, fmt.Errorf("hint must be sumext(k, lo, hi, term1, term2)"))
+			}
+			cur.Hints = append(cur.Hints, &Clause{Name: d.name, Expr: n, Src: d.text})
 		default:
 			return perr(d, fmt.Errorf("unexpected directive %s", d.kw))
 		}
